@@ -44,6 +44,30 @@ start :: fn do
     print(area(42))
 end
 '''),
+("initialiser_that_reads_itself", False, {"a": (0, 3)}, '''
+base :: ?a
+limit : int : limit + base
+start :: fn do
+    print(limit)
+end
+'''),
+("initialiser_that_reads_itself_through_a_closure", False, {"a": (0, 3)}, '''
+base :: ?a
+total : int : (fn -> int do ret total * 2 + base end)()
+start :: fn do
+    print(total)
+end
+'''),
+("initialiser_that_reads_itself_in_a_blob", False, {"a": (0, 3)}, '''
+Pt :: blob {
+    x: int,
+    y: int,
+}
+origin :: Pt { x: ?a, y: origin.x }
+start :: fn do
+    print(origin.y)
+end
+'''),
 ("independent_initialisers_with_side_effects", True, {"a": (0, 3)}, '''
 counter := ?a
 next :: fn -> int do
